@@ -77,6 +77,37 @@ def programs(tier):
     return out
 
 
+def abi_frame_programs(tier):
+    """ABI values allocated inside a subroutine: frame cells under the frame-pointer convention (at most 128 of them, the
+    rest falls back to scratch slots), scratch slots otherwise.  Every value gets a marker and is read back."""
+    import abiprog
+    pt = abiprog.pt
+    abi = pt.abi
+    out = []
+    for n in ((5, 127, 128, 129, 140) if tier == "quick" else (1, 5, 64, 126, 127, 128, 129, 130, 140, 200)):
+        for with_output in (True, False):
+            def build(n=n, with_output=with_output):
+                def body(output=None):
+                    vs = [abi.Uint64() for _ in range(n)]
+                    stmts = [v.set(1000 + i) for i, v in enumerate(vs)]
+                    stmts += [pt.Assert(v.get() == pt.Int(1000 + i)) for i, v in enumerate(vs)]
+                    stmts += [vs[n // 2].set(vs[0].get() + vs[n - 1].get()), pt.Assert(vs[n // 2].get() == pt.Int(2000 + n - 1))] if n > 2 else []
+                    return stmts
+                if with_output:
+                    @pt.ABIReturnSubroutine
+                    def many(*, output: abi.Uint64):
+                        return pt.Seq(*body(), output.set(7))
+                    r = abi.Uint64()
+                    return pt.Seq(many().store_into(r), pt.Return(r.get() == pt.Int(7)))
+
+                @pt.Subroutine(pt.TealType.uint64)
+                def many2():
+                    return pt.Seq(*body(), pt.Int(1))
+                return many2()
+            out.append(("abi-frame-locals n=%d %s" % (n, "output" if with_output else "plain"), build))
+    return out
+
+
 def settings(p):
     out = []
     for v in (5, 8, 9):
@@ -131,6 +162,48 @@ def main():
                 ",".join(metas[idx][k - 1]["tags"]), v[4], v[5]),
                 {"program": tag, "settings": metas[idx][k - 1]["tags"], "st": metas[idx][k - 1]["st"], "verdict": v,
                  "text": metas[idx][k - 1]["text"][:4000]})
+    # ABI values inside subroutines (frame cells / scratch fallback)
+    import abiprog
+    import batch as batchmod
+    import static
+    fentries, fmetas, fdescr, stat_entries = [], [], [], []
+    for what, build in abi_frame_programs(tier):
+        rs = []
+        for st in ({"v": 8}, {"v": 8, "fp": False}, {"v": 10}, {"v": 7}):
+            try:
+                kw = {"optimize": abiprog.pt.OptimizeOptions(frame_pointers=False)} if st.get("fp") is False else {}
+                r = abiprog.compile_ast(build(), st["v"], **kw)
+            except Exception as e:  # noqa: BLE001
+                r = {"err": type(e).__name__, "msg": str(e)[:200], "pyteal_error": False}
+            r["st"] = st
+            rs.append(r)
+            if "teal" not in r:
+                chk.report("C10/abi-frame-locals-do-not-compile/%s/%s" % (what, r["err"]), "%s at %r: %s" % (what, st, r.get("msg")), {"what": what, "st": st})
+            else:
+                t = static.text_record(r["teal"], st["v"], "app", tag=pipeline.settings_tag(st))
+                t["_what"], t["_text"] = what, r["teal"]
+                stat_entries.append({"texts": [t]})
+        recipe = abiprog.expect_log([])
+        e, meta = pipeline.make_entry(len(fentries) + 1, recipe, rs, batchmod.default_cx(recipe))
+        if e["texts"]:
+            fentries.append(e)
+            fmetas.append(meta)
+            fdescr.append(what)
+    fverd, fres, ferr = pipeline.run_refine(fentries, "c10f", max_steps=20000, chunks=4)
+    lines, lres, lerr = static.run([{"texts": [{k: v for k, v in t.items() if not k.startswith("_")} for t in e["texts"]]} for e in stat_entries], "c10L", spec="LSpec")
+    for r in fres + lres:
+        chk.add_tlc(r)
+    for e in ferr + lerr:
+        chk.machinery_failure(e)
+    for (idx, cid, k), v in sorted(fverd.items()):
+        if v[3] not in ("ok", "inconclusive"):
+            chk.report("C10/%s/%s" % (v[3], fdescr[idx]), "%s compiled as %s: expected read-back of every marker, TEAL run %s" % (fdescr[idx], ",".join(fmetas[idx][k - 1]["tags"]), v[5]),
+                       {"what": fdescr[idx], "st": fmetas[idx][k - 1]["st"], "verdict": v, "text": fmetas[idx][k - 1]["text"][:3000]})
+    for ln in lines:
+        if ln[0] == "L" and ln[3] != "":
+            t = stat_entries[ln[1]]["texts"][0]
+            chk.report("C10/illegal-teal/%s/%s" % (t["_what"], ln[3].split(":", 1)[1]), "%s compiled as %s: %s" % (t["_what"], t["tag"], ln[3]), {"what": t["_what"], "why": ln[3], "text": t["_text"][:3000]})
+    chk.notes["abi_frame_local_programs"] = len(fentries)
     chk.sample({"program": progs[0]["big"], "teal": metas[0][0]["text"][:600] if metas else "", "verdict": rverd.get((0, 0, 1))})
     chk.sample({"programs": [p["big"] for p in progs[:40]]})
     chk.cov["traces_validated_against_impl"] = sum(len(e["outs"]) for e in entries)
